@@ -86,3 +86,23 @@ func (s *System) VerifStatus() int32 {
 	defer s.statusLock.Unlock()
 	return s.status
 }
+
+// VerifSubscriptions dumps both event-stream tables as sorted "Type@path" strings.
+func (s *System) VerifSubscriptions() (bySubscribers []string, byTypes []string) {
+	es := s.eventStream.(*eventStream)
+	es.mu.RLock()
+	defer es.mu.RUnlock()
+	for t, m := range es.subscribers {
+		for p := range m {
+			bySubscribers = append(bySubscribers, t.String()+"@"+p)
+		}
+	}
+	for p, m := range es.subscriberTypes {
+		for t := range m {
+			byTypes = append(byTypes, t.String()+"@"+p)
+		}
+	}
+	sort.Strings(bySubscribers)
+	sort.Strings(byTypes)
+	return
+}
